@@ -580,6 +580,8 @@ def oracle(case, gen, inp):
     series = gen['series']
     vl = gen['VariableList']
     # table
+    if not an['wf']:
+        return fails, facts
     if 'csv_err' in gen:
         fail('generated:table-header', 'CreateCsvString raised ' + gen['csv_err'])
     else:
@@ -605,8 +607,6 @@ def oracle(case, gen, inp):
                     break
         if gen['csv1'] != gen.get('csv2'):
             fail('generated:table-header', 'CreateCsvString is not repeatable')
-    if not an['wf']:
-        return fails, facts
     # lengths and finiteness
     for v in an['endo'] + an['exo']:
         if v not in series or len(series[v]) != T + 1:
@@ -625,6 +625,11 @@ def oracle(case, gen, inp):
         facts['no_steps'] = True
         return fails, facts
     tol_g = float(eval_const(case['tol'])) if case['tol'] is not None else 1e-8
+    if not (tol_g < 1.0):
+        # the loop starts from err = 1. (as the in-process solver's does): with a tolerance >= 1 no sweep is
+        # made at all and "within the stated tolerance" says nothing
+        facts['tolerance_ge_1'] = True
+        return fails, facts
     codes = [compile(r.strip(), '<rhs>', 'eval') for _, r in an['eqs']]
     bounds_ok = True
     E_prev = 0.0
@@ -768,7 +773,7 @@ def run(ctx):
              'with_exogenous': 0, 'with_constants': 0, 'with_decoration': 0, 'reduction': 0, 'no_steps': 0,
              'substituted_back': 0, 'compared_with_inprocess': 0, 'skipped_k0_differs': 0, 'skipped_not_contractive': 0,
              'skipped_inprocess_failed': 0, 'skipped_bound_too_loose': 0, 'numeric_error_but_inprocess_ok': 0,
-             'not_wellformed': 0}
+             'not_wellformed': 0, 'tolerance_ge_1': 0}
     for case in cases:
         gen, inp, fails, facts = process(case)
         out.failures.extend(fails)
@@ -797,6 +802,7 @@ def run(ctx):
         else:
             stats['run_error'][gen['cls']] = stats['run_error'].get(gen['cls'], 0) + 1
         stats['no_steps'] += 1 if facts.get('no_steps') else 0
+        stats['tolerance_ge_1'] += 1 if facts.get('tolerance_ge_1') else 0
         stats['not_wellformed'] += 0 if facts.get('wf') else 1
         stats['substituted_back'] += 1 if facts.get('substituted') else 0
         stats['compared_with_inprocess'] += 1 if facts.get('compared_with_inprocess') else 0
